@@ -156,6 +156,9 @@ func cmdCheck(prop, tier string) int {
 				termMissing = append(termMissing, fmt.Sprintf("%s loop %d", g.key, li.ord))
 			}
 		}
+		if g.nosafe > 0 {
+			warnings = append(warnings, fmt.Sprintf("%s: %d memory-safety obligations NOT generated (contract says nosafety): safety of this function is not claimed", g.key, g.nosafe))
+		}
 		// vacuity guard: expected number of obligations
 		if g.c != nil && g.c.Expect > 0 && len(g.obls) < g.c.Expect {
 			obls = append(obls, &Obl{Name: g.key + "/vacuous/count", Fn: g.key, Kind: "vacuity", Verdict: "vacuous",
